@@ -133,10 +133,18 @@ func safely(t *rapid.T, s *snapshot, cmd string, fn func()) {
 
 func TestPropBalance(t *testing.T) {
 	vlib.Check(t, 6000, 120000, func(t *rapid.T) {
-		s := genSnapshot(t, genOpts{wantUnder: 2, wantOver: 2, concentrate: rapid.IntRange(0, 3).Draw(t, "concentrate") > 0, minVol: 4})
+		shape := rapid.IntRange(0, 9).Draw(t, "shape")
+		o := genOpts{wantUnder: 2, wantOver: 2, concentrate: shape > 1, minVol: 4}
+		if shape >= 6 {
+			o = genOpts{wantUnder: 1, wantOver: 1, concentrate: true, hotspot: true, minVol: 4}
+		}
+		s := genSnapshot(t, o)
 		mode := rapid.SampledFrom([]string{"EACH_COLLECTION", "EACH_COLLECTION", "ALL_COLLECTIONS", "ALL_COLLECTIONS", "", "a", "b"}).Draw(t, "collection")
+		if o.hotspot && mode != "EACH_COLLECTION" && mode != "ALL_COLLECTIONS" && len(s.vols) > 0 && rapid.IntRange(0, 3).Draw(t, "hotspotNamed") > 0 {
+			mode = s.vols[len(s.vols)/2].coll // most likely the dominant collection
+		}
 		dc := ""
-		if rapid.IntRange(0, 4).Draw(t, "dcFilter") == 0 {
+		if rapid.IntRange(0, 4).Draw(t, "dcFilter") == 0 && !(o.hotspot && rapid.Bool().Draw(t, "hotspotNoDcFilter")) {
 			dc = s.servers[rapid.IntRange(0, len(s.servers)-1).Draw(t, "dcOf")].dc
 		}
 		colls := rapid.Permutation(collectionsOf(s)).Draw(t, "collectionOrder")
@@ -187,6 +195,48 @@ func TestPropBalance(t *testing.T) {
 		replay(t, s, cmd, steps)
 
 		classes := []string{"balance"}
+		if o.hotspot {
+			classes = append(classes, "balance-hotspot-shape")
+			if len(steps) > 0 {
+				classes = append(classes, "balance-hotspot-shape-with-moves")
+			}
+		}
+		if len(steps) >= 2 {
+			classes = append(classes, "balance-with-2+-moves")
+		}
+		if len(steps) >= 5 {
+			classes = append(classes, "balance-with-5+-moves")
+		}
+		// the sequential hazard: a later step concerns a replicated volume one of whose
+		// replicas sits on a server that an earlier step (of another volume) moved away from
+		{
+			mm := newModel(s)
+			earlier := map[string]uint32{}
+			sibling, fromEarlier := false, false
+			for _, st := range steps {
+				if mm.vols[st.vid].copies() > 1 {
+					for _, l := range mm.locs(st.vid) {
+						if vid, ok := earlier[l.id]; ok && vid != st.vid {
+							if l.id == st.src {
+								fromEarlier = true
+							} else {
+								sibling = true
+							}
+						}
+					}
+				}
+				mm.apply(st)
+				if _, ok := earlier[st.src]; !ok {
+					earlier[st.src] = st.vid
+				}
+			}
+			if sibling {
+				classes = append(classes, "balance-moves-volume-whose-sibling-is-on-earlier-source")
+			}
+			if fromEarlier {
+				classes = append(classes, "balance-moves-replicated-volume-from-earlier-source")
+			}
+		}
 		if len(steps) > 0 {
 			classes = append(classes, "balance-with-moves")
 			movedReplicated := false
